@@ -160,7 +160,9 @@ class XGen:
             name = "media/image%d.%s" % (len(self.pkg.media) + 1, ext)
             data = bytes(r.randrange(256) for _ in range(r.choice([0, 1, 3, 8, 20])))
             if r.random() < self.linked_rate:
-                tgt = "http://example.invalid/linked%d.png" % len(self.pkg.linked) if self.maybe(0.5) else "linked%d.png" % len(self.pkg.linked)
+                # linked targets also without an extension / with one no table knows: their content type cannot be determined
+                lext = r.choice([".png", ".png", ".img", ""])
+                tgt = ("http://example.invalid/linked%d%s" if self.maybe(0.5) else "linked%d%s") % (len(self.pkg.linked), lext)
                 self.pkg.linked[tgt] = ("data", data) if self.maybe(0.6) else ("error", None)
                 rid = self.add_rel(tgt, "http://schemas.openxmlformats.org/officeDocument/2006/relationships/image")
                 blip = X("a:blip", {"r:link": rid})
